@@ -160,20 +160,20 @@ fn run_compress(ctx: &mut Ctx) {
         ctx.fail(&format!("compress-outcome:{}", r.outcome.class()), format!("compress of a valid scenario ended with {}; {}", r.outcome.short(), desc));
         return;
     }
-    let temp = std::path::Path::new(name).with_extension(".tmp").to_string_lossy().to_string();
     let events: Vec<(sys::Op, String, i64, i64)> = sys::with(|s| s.log.iter().filter(|e| matches!(e.op, sys::Op::Open | sys::Op::Unlink | sys::Op::Rename | sys::Op::Mkdir)).map(|e| (e.op, s.path_name(e.path).to_string(), e.a, e.ret)).collect());
+    // which temporary files compress uses and how it names them is its own business; what it
+    // may not do is open for writing, remove or rename a file that was there before (other
+    // than the archive path itself)
     for (op, path, a, ret) in &events {
+        let preexisting = before.contains_key(path) && path != name;
+        let outside = path.starts_with('/');
         match op {
-            sys::Op::Open if a & WRITE_FLAGS != 0 && path != name && *path != temp => {
-                ctx.fail("opened-for-writing", format!("compress opened {:?} with flags {:#o} (result {}); only the archive and its temporary chunk file may be written; {}", path, a, ret, desc));
+            sys::Op::Open if a & WRITE_FLAGS != 0 && (preexisting || outside) => {
+                ctx.fail("opened-for-writing", format!("compress opened {:?}, which is not its output and existed before, with flags {:#o} (result {}); {}", path, a, ret, desc));
                 return;
             }
-            sys::Op::Unlink if *path != temp => {
-                ctx.fail("removed-other-file", format!("compress removed {:?}; {}", path, desc));
-                return;
-            }
-            sys::Op::Rename | sys::Op::Mkdir => {
-                ctx.fail("renamed-or-mkdir", format!("compress issued {:?} on {:?}; {}", op, path, desc));
+            sys::Op::Unlink | sys::Op::Rename if preexisting || outside => {
+                ctx.fail("removed-other-file", format!("compress issued {:?} on {:?}, a file that existed before; {}", op, path, desc));
                 return;
             }
             _ => {}
@@ -192,7 +192,7 @@ fn run_compress(ctx: &mut Ctx) {
         }
     }
     if diff != vec![name.to_string()] {
-        ctx.fail("leftover-files", format!("a successful compress must leave exactly one new file, the archive {:?}; the listing differs at {:?} (temp file {:?}); {}", name, diff, temp, desc));
+        ctx.fail("leftover-files", format!("a successful compress must leave exactly one new file, the archive {:?}; the listing differs at {:?}; {}", name, diff, desc));
         return;
     }
     ctx.verdict.nontrivial = events.len() >= 3;
